@@ -274,6 +274,10 @@ impl World {
         matches!(self.ctx, CtxSlot::Connecting(_) | CtxSlot::Running(_))
     }
 
+    pub fn ctx_idle_or_returned(&self) -> bool {
+        matches!(self.ctx, CtxSlot::Idle(_) | CtxSlot::Returned(_))
+    }
+
     pub fn ctx_running(&self) -> bool {
         matches!(self.ctx, CtxSlot::Running(_))
     }
